@@ -430,3 +430,50 @@ V("c23-twin-wrapfunc-rename", "C23", "-", "dask_array/random/_utils.py", None, N
   ("dask_array/random/_utils.py", "expr = RandomPoisson(frozen, size,", "expr = RandomPoisson(snap, size,"),
   ("dask_array/random/_utils.py", "expr = Random(frozen, funcname,", "expr = Random(snap, funcname,"),
 ])
+
+# ---------------------------------------------------------------------------- C07
+V("c07-rechunk-name-uuid", "C07", "R07.1", "dask_array/_rechunk.py",
+  "            return \"rechunk-merge-\" + tokenize(*self.operands)\n", "            import uuid\n\n            return \"rechunk-merge-\" + uuid.uuid4().hex\n", expect="Rechunk._name::uuid")
+V("c07-reduction-token-id", "C07", "R07.1", "dask_array/reductions/_reduction.py",
+  "                type(self),\n                self.chunk,\n                self.aggregate,\n                self.array,\n                self.axis,\n                self.keepdims,\n                self.operand(\"dtype\"),",
+  "                type(self),\n                id(self.chunk),\n                self.aggregate,\n                self.array,\n                self.axis,\n                self.keepdims,\n                self.operand(\"dtype\"),", expect="Reduction.__dask_tokenize__::id")
+V("c07-einsum-unsorted", "C07", "R07.1", "dask_array/_einsum.py",
+  "        unused = sorted(einsum_symbols_set - set(used))", "        unused = list(einsum_symbols_set - set(used))", expect="einsum::set-order")
+V("c07-outer-name-pid", "C07", "R07.1", "dask_array/_ufunc.py",
+  "            name=self.__name__ + \".outer-\" + _tokenize_deterministic(self._ufunc),",
+  "            name=self.__name__ + \".outer-\" + _tokenize_deterministic(self._ufunc) + str(__import__(\"os\").getpid() if False else time.time()),", expect="ufunc.outer::time",
+  edits=[("dask_array/_ufunc.py", "            name=self.__name__ + \".outer-\" + _tokenize_deterministic(self._ufunc),",
+          "            name=self.__name__ + \".outer-\" + _tokenize_deterministic(self._ufunc) + str(time.time()),"),
+         ("dask_array/_ufunc.py", "from __future__ import annotations\n", "from __future__ import annotations\n\nimport time\n")])
+V("c07-helper-returns-uuid", "C07", "R07.1", "dask_array/_ufunc.py", None, None, expect="ufunc.outer::uuid",
+  edits=[("dask_array/_ufunc.py", "            name=self.__name__ + \".outer-\" + _tokenize_deterministic(self._ufunc),",
+          "            name=self.__name__ + \".outer-\" + _fresh_suffix(self._ufunc),"),
+         ("dask_array/_ufunc.py", None, "\n\ndef _fresh_suffix(obj):\n    import uuid\n\n    parts = [type(obj).__name__, uuid.uuid4().hex]\n    return \"-\".join(parts)\n")])
+V("c07-name-hash-of-string", "C07", "R07.1", "dask_array/_rechunk.py",
+  "        return \"rechunk-p2p-\" + tokenize(*self.operands)", "        return \"rechunk-p2p-\" + str(hash(str(self.operands)))", expect="::hash")
+V("c07-reduce-no-token", "C07", "R07.2", "dask_array/_expr.py",
+  "            *self.operands,\n            self.deterministic_token,\n            cache,\n        )", "            *self.operands,\n            None,\n            cache,\n        )", expect="ArrayExpr.__reduce__")
+V("c07-reduce-own-dict-only", "C07", "R07.2", "dask_array/_expr.py",
+  "            for k in type(self)._cached_property_names:\n                if k in self.__dict__ and k not in type(self)._pickle_excluded_cached_properties:\n                    cache[k] = self.__dict__[k]\n",
+  "            for k, v in type(self).__dict__.items():\n                if isinstance(v, functools.cached_property) and k in self.__dict__ and k not in type(self)._pickle_excluded_cached_properties:\n                    cache[k] = self.__dict__[k]\n", expect="ArrayExpr.__reduce__")
+V("c07-collect-no-mro", "C07", "R07.2", "dask_array/_expr.py",
+  "    names = set()\n    for parent in cls.__mro__:\n        for k, v in parent.__dict__.items():\n            if isinstance(v, functools.cached_property):\n                names.add(k)\n    return frozenset(names)\n",
+  "    return frozenset(k for k, v in vars(cls).items() if isinstance(v, functools.cached_property))\n", expect="_collect_cached_property_names")
+V("c07-class-overrides-reduce", "C07", "R07.2", "dask_array/_rechunk.py",
+  "    @property\n    def _name(self):\n        return \"rechunk-p2p-\" + tokenize(*self.operands)\n",
+  "    @property\n    def _name(self):\n        return \"rechunk-p2p-\" + tokenize(*self.operands)\n\n    def __reduce__(self):\n        return type(self), tuple(self.operands)\n", expect="__reduce__")
+V("c07-fromarray-token-not-cached", "C07", "R07.3", "dask_array/io/_from_array.py",
+  "                    self._determ_token = uuid.uuid4().hex\n        return self._determ_token", "                    return uuid.uuid4().hex\n        return self._determ_token", expect="FromArray.__dask_tokenize__")
+V("c07-getstate-pops-policy", "C07", "R07.5", "dask_array/_collection.py",
+  "        state.pop(\"_cached_dask_keys\", None)\n        return state", "        state.pop(\"_cached_dask_keys\", None)\n        state.pop(\"_lowered_expr_optimize_graph\", None)\n        return state", expect="Array.__getstate__")
+V("c07-setstate-filters", "C07", "R07.5", "dask_array/_collection.py",
+  "        self.__dict__.update(state)\n", "        self.__dict__.update({k: v for k, v in state.items() if k == \"_expr\"})\n", expect="Array.__setstate__")
+V("c07-twin-rename-token-local", "C07", "-", "dask_array/core/_conversion.py", None, None, twin=True, edits=[
+  ("dask_array/core/_conversion.py", "    determ_token = None\n", "    tok = None\n"),
+  ("dask_array/core/_conversion.py", "        determ_token = (FromArray, name_prefix, uuid.uuid1())", "        tok = (FromArray, name_prefix, uuid.uuid1())"),
+  ("dask_array/core/_conversion.py", "            _determ_token=determ_token,", "            _determ_token=tok,"),
+])
+V("c07-twin-einsum-sorted-other-spelling", "C07", "-", "dask_array/_einsum.py",
+  "        unused = sorted(einsum_symbols_set - set(used))", "        unused = list(sorted(einsum_symbols_set.difference(used)))", twin=True)
+V("c07-twin-int-set-order", "C07", "-", "dask_array/_rechunk.py",
+  "        return \"rechunk-p2p-\" + tokenize(*self.operands)", "        axes = list({i for i in range(self.array.ndim)})\n        return \"rechunk-p2p-\" + tokenize(axes, *self.operands)", twin=True)
